@@ -487,6 +487,13 @@ def generate():
             or ast.unparse(sy.func("BaseModbusClient", "recv").body[-1]) != "return self._recv(size)":
         sy.fail(sy.cls("BaseModbusClient"), "BaseModbusClient.send/recv: unexpected shape")
 
+    # ---- the decoder never raises: ClientDecoder.decode wraps _helper in try/except Exception and returns None
+    #      (the `dec_total` premise of Props/C08_tcp.v / C13_tcp.v)
+    fa = Src("pymodbus/factory.py")
+    f = fa.func("ClientDecoder", "decode")
+    expect(fa, f, f.body, "try:\n    return self._helper(message)\nexcept ModbusException as er:\n    pass\n"
+                          "except Exception as ex:\n    pass\nreturn None", "ClientDecoder.decode")
+
     # ---- framers: _hsize of the socket framer; who re-keys the request
     sf = Src("pymodbus/framer/socket_framer.py")
     hs = None
